@@ -541,15 +541,22 @@ func (s *SecureChannel) readChunk() (*MessageChunk, error) {
 			return nil, errors.Errorf("sechan: invalid state. openingInstance is nil.")
 		}
 
-		s.cfg.SecurityPolicyURI = m.SecurityPolicyURI
+		// the configuration is read concurrently by the goroutines that send
+		// on the channel: only write what a first OPN really changes (a
+		// renewal repeats the values of the channel)
+		if s.cfg.SecurityPolicyURI != m.SecurityPolicyURI {
+			s.cfg.SecurityPolicyURI = m.SecurityPolicyURI
+		}
 		if m.SecurityPolicyURI != ua.SecurityPolicyURINone {
-			s.cfg.RemoteCertificate = m.AsymmetricSecurityHeader.SenderCertificate
-			// Re-derive the receiver thumbprint from the peer certificate
-			// learned in the inbound OPN. No-op for the client path, where
-			// Thumbprint is already set from the endpoint's ServerCertificate
-			// at session open.
-			if len(s.cfg.RemoteCertificate) > 0 {
-				s.cfg.Thumbprint = uapolicy.Thumbprint(s.cfg.RemoteCertificate)
+			if !bytes.Equal(s.cfg.RemoteCertificate, m.AsymmetricSecurityHeader.SenderCertificate) {
+				s.cfg.RemoteCertificate = m.AsymmetricSecurityHeader.SenderCertificate
+				// Re-derive the receiver thumbprint from the peer certificate
+				// learned in the inbound OPN. No-op for the client path, where
+				// Thumbprint is already set from the endpoint's ServerCertificate
+				// at session open.
+				if len(s.cfg.RemoteCertificate) > 0 {
+					s.cfg.Thumbprint = uapolicy.Thumbprint(s.cfg.RemoteCertificate)
+				}
 			}
 			debug.Printf("uasc %d: setting securityPolicy to %s", s.c.ID(), m.SecurityPolicyURI)
 
@@ -864,8 +871,12 @@ func (s *SecureChannel) handleOpenSecureChannelRequest(reqID uint32, svc ua.Requ
 		}
 	}
 
-	s.cfg.Lifetime = req.RequestedLifetime
-	s.cfg.SecurityMode = req.SecurityMode
+	if s.cfg.Lifetime != req.RequestedLifetime {
+		s.cfg.Lifetime = req.RequestedLifetime
+	}
+	if s.cfg.SecurityMode != req.SecurityMode {
+		s.cfg.SecurityMode = req.SecurityMode
+	}
 
 	// I had to do the encryption setup in the chunk decoding logic because you have to
 	// decrypt the thing before you even know you have an open message.
